@@ -109,6 +109,24 @@ def shell_split(line):
 TMP_RE = re.compile(rb"\.[A-Za-z0-9]{24}$")
 
 
+def _is_replacement(w, line2, line3):
+    """`mv FILE TMP` followed by a link/clone command that re-creates FILE and by `rm TMP`, TMP next to FILE."""
+    import os
+    try:
+        w2, w3 = shell_split(line2), shell_split(line3)
+    except (ValueError, IndexError, KeyError):
+        return False
+    if len(w3) != 2 or w3[0] != b"rm" or w3[1] != w[2] or os.path.dirname(w[2]) != os.path.dirname(w[1]):
+        return False
+    if w2[:2] == [b"ln", b"-s"] and len(w2) == 4:
+        return w2[3] == w[1]
+    if w2[0] == b"ln" and len(w2) == 3:
+        return w2[2] == w[1]
+    if w2[0] == b"cp" and len(w2) == 4 and w2[1].startswith(b"--reflink"):
+        return w2[3] == w[1]
+    return False
+
+
 def parse_script(text):
     """Parses a dry-run script into operations: list of {"kind", "file", "target"}.
     kind: remove | hardlink | softlink | reflink | move_rename | move_copy."""
@@ -120,21 +138,15 @@ def parse_script(text):
         if w[0] == b"rm" and len(w) == 2:
             ops.append({"kind": "remove", "file": w[1], "target": None})
             i += 1
-        elif w[0] == b"mv" and len(w) == 3 and TMP_RE.search(w[2]) and w[2].startswith(w[1] + b".") and i + 2 < len(lines):
+        elif w[0] == b"mv" and len(w) == 3 and i + 2 < len(lines) and _is_replacement(w, lines[i + 1], lines[i + 2]):
+            # mv FILE TMP; ln [-s] TARGET FILE | cp --reflink=... TARGET FILE; rm TMP   (TMP: a sibling of FILE, any name)
             w2 = shell_split(lines[i + 1])
-            w3 = shell_split(lines[i + 2])
-            if w3[0] != b"rm" or w3[1] != w[2]:
-                raise ValueError("unexpected script shape at %r" % lines[i:i + 3])
             if w2[0] == b"ln" and w2[1] == b"-s":
                 kind, tgt, link = "softlink", w2[2], w2[3]
             elif w2[0] == b"ln":
                 kind, tgt, link = "hardlink", w2[1], w2[2]
-            elif w2[0] == b"cp" and w2[1].startswith(b"--reflink"):
-                kind, tgt, link = "reflink", w2[2], w2[3]
             else:
-                raise ValueError("unexpected script shape at %r" % lines[i:i + 3])
-            if link != w[1]:
-                raise ValueError("link path mismatch at %r" % lines[i:i + 3])
+                kind, tgt, link = "reflink", w2[2], w2[3]
             ops.append({"kind": kind, "file": link, "target": tgt})
             i += 3
         elif w[0] == b"mv" and len(w) == 3:
@@ -163,8 +175,12 @@ def parse_summary(stderr_text):
     return int(m.group(1)), m.group(2)
 
 
+WARN_RE = re.compile(r"\bwarn(ing)?\b|\berror\b", re.I)
+
+
 def warnings(stderr_text):
-    return [l for l in stderr_text.splitlines() if " warn:" in l]
+    """Log lines at warning (or error) level, whatever the exact layout of the log prefix is."""
+    return [l for l in stderr_text.splitlines() if WARN_RE.search(l)]
 
 
 # --------------------------------------------------------------------------- running
